@@ -493,6 +493,14 @@ nofold:
 	if op == "bvsub" && b.IsConst() {
 		return bin("bvadd", a, Const(w, -b.Val))
 	}
+	if op == "bvsub" {
+		// (x + c1) - (x + c2) = c1 - c2
+		ab, ac := splitAdd(a)
+		bb, bc := splitAdd(b)
+		if ab == bb {
+			return Const(w, ac-bc)
+		}
+	}
 	return mk(op, a.S, 0, "", 0, 0, a, b)
 }
 func cmp(op string, a, b *Term) *Term {
@@ -520,6 +528,17 @@ func cmp(op string, a, b *Term) *Term {
 	}
 	if op == "bvule" && a.IsConst() && a.Val == 0 {
 		return tTrue
+	}
+	// canonical form: a <= b is written not(b < a), so that a test and its negation share one atom
+	if op == "bvule" {
+		return Not(cmp("bvult", b, a))
+	}
+	if op == "bvsle" {
+		return Not(cmp("bvslt", b, a))
+	}
+	// c < zext(x) is false when c is at least the largest value x can take
+	if op == "bvult" && b.Op == "zext" && a.IsConst() && a.Val >= mask(b.Args[0].S.W) {
+		return tFalse
 	}
 	// zext(x) < 2^k with k >= width(x)
 	if (op == "bvult" || op == "bvule") && a.Op == "zext" && b.IsConst() && b.Val > mask(a.Args[0].S.W) {
